@@ -179,9 +179,15 @@ struct ExpHarness : HarnessBase {
 
 // ------------------------------------------------------------------------------------------
 struct TrackedB : Tracked { TrackedB() = default; TrackedB(int x) : Tracked(x) {} };
+// an over-aligned, large alternative that comes LAST in a non-monotone type list (size 16, 1, 64; alignment 8, 1, 32)
+struct alignas(32) BigT : Tracked { char pad[40]; BigT() = default; BigT(int x) : Tracked(x) { memset(pad, 0x42, sizeof pad); } };
+inline int val(const BigT &b) { for(char c : b.pad) if(c != 0x42) return -12345; return b.get(); }
+template<class A0, class A1, class A2>
 struct VarHarness : HarnessBase {
-	using V = frg::variant<Tracked, TrackedB, int>;
-	alignas(16) unsigned char store[2][sizeof(V)];
+	using V = frg::variant<A0, A1, A2>;
+	const char *name;
+	VarHarness(const char *n) : name(n) {}
+	alignas(64) unsigned char store[2][sizeof(V)];
 	bool alive[2] = {false, false};
 	struct M { int tag = -1; int v = 0; } ref[2];
 	const char *prop() const { return "C17"; }
@@ -198,17 +204,17 @@ struct VarHarness : HarnessBase {
 	}
 	std::string show_class(uint32_t op) {
 		static const char *nm[] = {"ctor()", "ctor(X)", "copy_construct", "move_construct", "copy_assign", "move_assign", "self_assign", "assign(X)", "assign(empty)", "emplace", "apply-mutate"};
-		return std::string("variant.") + nm[op & 0xff];
+		return std::string(name) + "." + nm[op & 0xff];
 	}
 	std::string show(uint32_t op) { uint32_t tv = op >> 12; return show_class(op) + "(slot" + std::to_string((op >> 8) & 0xf) + ",alt=" + std::to_string(tv / 4) + ",v=" + std::to_string(tv % 4) + ")"; }
 	void renew(int a) { s(a).~V(); alive[a] = false; }
-	void moved(int b) { if(ref[b].tag == 0 || ref[b].tag == 1) ref[b].v = MOVED; }
-	V make(int t, int v) { if(t == 0) return V(Tracked(v)); if(t == 1) return V(TrackedB(v)); return V(v); }
+	void moved(int b) { if((ref[b].tag == 0 && is_tracked<A0>) || (ref[b].tag == 1 && is_tracked<A1>) || (ref[b].tag == 2 && is_tracked<A2>)) ref[b].v = MOVED; }
+	V make(int t, int v) { if(t == 0) return V(A0(v)); if(t == 1) return V(A1(v)); return V(A2(v)); }
 	void apply(uint32_t op) {
 		uint32_t k = op & 0xff, a = (op >> 8) & 0xf, b = 1 - a; int tv = op >> 12, t = tv / 4, v = tv % 4;
 		switch(k) {
 		case C_DEFAULT: renew(a); new(store[a]) V(); alive[a] = true; ref[a] = {}; break;
-		case C_ALT: renew(a); if(t == 0) new(store[a]) V(Tracked(v)); else if(t == 1) new(store[a]) V(TrackedB(v)); else new(store[a]) V(v); alive[a] = true; ref[a] = {t, v}; break;
+		case C_ALT: renew(a); if(t == 0) new(store[a]) V(A0(v)); else if(t == 1) new(store[a]) V(A1(v)); else new(store[a]) V(A2(v)); alive[a] = true; ref[a] = {t, v}; break;
 		case C_COPY: renew(a); new(store[a]) V(static_cast<const V &>(s(b))); alive[a] = true; ref[a] = ref[b]; break;
 		case C_MOVE: renew(a); new(store[a]) V(std::move(s(b))); alive[a] = true; ref[a] = ref[b]; moved(b); break;
 		case A_COPY: { V &r = (s(a) = static_cast<const V &>(s(b))); if(&r != &s(a)) throw Violation{"C17", "variant.copy_assign:result", "assignment does not return *this"}; ref[a] = ref[b]; break; }
@@ -216,7 +222,7 @@ struct VarHarness : HarnessBase {
 		case A_SELF: { const V &x = s(a); s(a) = x; break; }
 		case A_ALT: s(a) = make(t, v); ref[a] = {t, v}; break;
 		case A_EMPTY: s(a) = V(); ref[a] = {}; break;
-		case EMPLACE: if(t == 0) s(a).emplace<Tracked>(v); else if(t == 1) s(a).emplace<TrackedB>(v); else s(a).emplace<int>(v); ref[a] = {t, v}; break;
+		case EMPLACE: if(t == 0) s(a).template emplace<A0>(v); else if(t == 1) s(a).template emplace<A1>(v); else s(a).template emplace<A2>(v); ref[a] = {t, v}; break;
 		case MUTATE: {
 			int r = s(a).apply([&](auto &x) -> int { x = std::remove_reference_t<decltype(x)>(v); return 5; });
 			if(r != 5) throw Violation{"C17", "variant.apply:result", "apply() did not return the functor's result"};
@@ -230,21 +236,23 @@ struct VarHarness : HarnessBase {
 			if(bool(x) != (ref[a].tag >= 0)) throw Violation{"C17", "variant:engaged", "engaged state differs from the reference"};
 			size_t want = ref[a].tag < 0 ? V::invalid_tag : (size_t)ref[a].tag;
 			if(x.tag() != want) throw Violation{"C17", "variant:tag", "tag() differs from the reference"};
-			if(x.is<Tracked>() != (ref[a].tag == 0) || x.is<TrackedB>() != (ref[a].tag == 1) || x.is<int>() != (ref[a].tag == 2)) throw Violation{"C17", "variant:is", "is<X>() differs from the reference"};
+			if(x.template is<A0>() != (ref[a].tag == 0) || x.template is<A1>() != (ref[a].tag == 1) || x.template is<A2>() != (ref[a].tag == 2)) throw Violation{"C17", "variant:is", "is<X>() differs from the reference"};
 			int got = 0; void *p = nullptr;
-			if(ref[a].tag == 0) { got = val(x.get<Tracked>()); p = &x.get<Tracked>(); if(&cx.get<Tracked>() != p) throw Violation{"C17", "variant:const-get", "const get designates a different object"}; }
-			if(ref[a].tag == 1) { got = val(x.get<TrackedB>()); p = &x.get<TrackedB>(); }
-			if(ref[a].tag == 2) { got = x.get<int>(); p = &x.get<int>(); }
+			if(ref[a].tag == 0) { got = val(x.template get<A0>()); p = &x.template get<A0>(); if(&cx.template get<A0>() != p) throw Violation{"C17", "variant:const-get", "const get designates a different object"}; }
+			if(ref[a].tag == 1) { got = val(x.template get<A1>()); p = &x.template get<A1>(); }
+			if(ref[a].tag == 2) { got = val(x.template get<A2>()); p = &x.template get<A2>(); }
 			if(ref[a].tag >= 0) {
 				if(got != ref[a].v) throw Violation{"C17", "variant:value", "held value differs from the reference"};
-				if(p < (void *)&x || p >= (void *)(&x + 1)) throw Violation{"C17", "variant:address", "get() designates an object outside the holder"};
+				size_t asz = ref[a].tag == 0 ? sizeof(A0) : ref[a].tag == 1 ? sizeof(A1) : sizeof(A2), aal = ref[a].tag == 0 ? alignof(A0) : ref[a].tag == 1 ? alignof(A1) : alignof(A2);
+				if(p < (void *)&x || (char *)p + asz > (char *)(&x + 1)) throw Violation{"C17", "variant:address", "the held alternative does not lie wholly inside the variant object (storage too small)"};
+				if((uintptr_t)p % aal) throw Violation{"C17", "variant:alignment", "the held alternative is misaligned inside the variant"};
 				int viaapply = x.apply([](auto &y) -> int { return val(y); });
 				if(viaapply != ref[a].v) throw Violation{"C17", "variant:apply", "apply() visited the wrong alternative"};
 			}
 		}
 		if(res) res->outcomes.insert("tags=" + std::to_string(ref[0].tag) + "/" + std::to_string(ref[1].tag));
 	}
-	void final_check() { for(int a = 0; a < 2; a++) if(alive[a]) { s(a).~V(); alive[a] = false; } raise_pending(); world_check_empty("variant"); }
+	void final_check() { for(int a = 0; a < 2; a++) if(alive[a]) { s(a).~V(); alive[a] = false; } raise_pending(); world_check_empty(name); }
 	void canon(std::string &out) { world_canon(out); GraphCanon g; for(int a = 0; a < 2; a++) if(alive[a]) g.root(store[a], sizeof(V)); g.emit(out); for(int a = 0; a < 2; a++) out += std::to_string(ref[a].tag) + ":" + std::to_string(ref[a].v) + ","; }
 };
 
@@ -360,7 +368,8 @@ static std::vector<Instance> instances(const std::string &) {
 	v.push_back(bfs_instance<OptHarness<CopyOnly, true, false>>("optional-copyonly", BfsOptions{}, "optional<CopyOnly>"));
 	v.push_back(bfs_instance<ExpHarness<Tracked>>("expected-tracked", BfsOptions{}, "expected<Err,Tracked>"));
 	v.push_back(bfs_instance<ExpHarness<int>>("expected-int", BfsOptions{}, "expected<Err,int>"));
-	v.push_back(bfs_instance<VarHarness>("variant", BfsOptions{}));
+	v.push_back(bfs_instance<VarHarness<Tracked, TrackedB, int>>("variant", BfsOptions{}, "variant"));
+	v.push_back(bfs_instance<VarHarness<Tracked, char, BigT>>("variant-mixed-sizes", BfsOptions{}, "variant<16B,1B,64B/align32>"));
 	v.push_back(bfs_instance<BoxHarness>("manual_box", BfsOptions{}));
 	Instance t; t.name = "tuple-shapes";
 	t.run = [](const std::vector<CrashInfo> &) { return tuple_checks(); };
